@@ -1771,7 +1771,7 @@ func (e *Engine) deleteSeriesRange(seriesKeys [][]byte, min, max int64) error {
 			var hasCacheValues bool
 			// If there are multiple fields, they will have the same prefix.  If any field
 			// has values, then we can't delete it from the index.
-			for i < len(deleteKeys) && bytes.HasPrefix(deleteKeys[i], k) {
+			for i < len(deleteKeys) && bytes.HasPrefix(deleteKeys[i], k) && bytes.HasPrefix(deleteKeys[i][len(k):], keyFieldSeparatorBytes) {
 				if e.Cache.Values(deleteKeys[i]).Len() > 0 {
 					hasCacheValues = true
 					break
